@@ -189,17 +189,24 @@ RECURSIVE GeomSum(_, _)
 GeomSum(a, k) == IF k = 0 THEN 0 ELSE Pow(a, k) + GeomSum(a, k - 1)
 MsgBound(finds, injects, a, ttl, nn) == finds * GeomSum(a, ttl + 1) * (2 + a) + injects * nn
 
+\* a relay parked at n (its handler waits in FindRoute) goes on when the search for its destination returned:
+\* the next hop is chosen from the refreshed table, still skipping the relay's path; no hop = the stream fails
+ResumeChoices(S, n, nb, m) == RelayChoices(S, n, nb, m)
+
 (***************************************************************************)
 (* Specification                                                           *)
 (***************************************************************************)
-CONSTANTS Graphs,      \* the link relations explored
-          MaxFinds,    \* FindRoute calls per behaviour
-          MaxInjects,  \* relayed streams entering the network per behaviour
-          MaxExpires,  \* pending expiries / cancellations per behaviour
-          MaxLosses    \* lost messages per behaviour
+CONSTANTS Graphs,        \* the link relations explored (initial)
+          MaxFinds,      \* FindRoute calls per behaviour (incl. the searches relays start)
+          MaxInjects,    \* relayed streams entering the network per behaviour
+          MaxExpires,    \* pending expiries / cancellations per behaviour
+          MaxLosses,     \* lost messages per behaviour
+          MaxLinkChanges \* neighbour links going down / coming up per behaviour (only while the network is quiet)
 
-VARIABLES links, st, net, nsent, nfinds, ninjects, nexp, nloss, last
-vars == <<links, st, net, nsent, nfinds, ninjects, nexp, nloss, last>>
+VARIABLES links, everlinks, st, parked, net, nsent, nfinds, ninjects, nexp, nloss, nlink, last
+\* everlinks : every link that existed at some time (recorded paths follow links that existed)
+\* parked    : node -> relay messages whose handler waits for a route search of that node
+vars == <<links, everlinks, st, parked, net, nsent, nfinds, ninjects, nexp, nloss, nlink, last>>
 
 Nbrs(n) == NbrsIn(links, n)
 C == [alpha |-> Alpha, ttl |-> MaxTTL, nodes |-> Node]
@@ -209,9 +216,10 @@ RECURSIVE BagAddAll(_, _)
 BagAddAll(b, ms) == IF ms = {} THEN b ELSE LET m == CHOOSE x \in ms : TRUE IN BagAddAll(BagAdd(b, m), ms \ {m})
 BagRemove(b, m) == IF b[m] = 1 THEN [x \in (DOMAIN b) \ {m} |-> b[x]] ELSE [b EXCEPT ![m] = @ - 1]
 
-Init == /\ links \in Graphs
+Init == /\ links \in Graphs /\ everlinks = links
         /\ st = [n \in Node |-> InitNode(C, NbrsIn(links, n))]
-        /\ net = <<>> /\ nsent = 0 /\ nfinds = 0 /\ ninjects = 0 /\ nexp = 0 /\ nloss = 0
+        /\ parked = [n \in Node |-> {}]
+        /\ net = <<>> /\ nsent = 0 /\ nfinds = 0 /\ ninjects = 0 /\ nexp = 0 /\ nloss = 0 /\ nlink = 0
         /\ last = [op |-> "init"]
 
 Apply(n, r, rest) ==
@@ -229,7 +237,7 @@ Find(n, t) ==
         /\ Apply(n, FindStep(C, st[n], n, t, fwd), net)
         /\ last' = [op |-> "find", n |-> n, t |-> t, fwd |-> fwd]
   /\ nfinds' = nfinds + 1
-  /\ UNCHANGED <<links, ninjects, nexp, nloss>>
+  /\ UNCHANGED <<links, everlinks, parked, ninjects, nexp, nloss, nlink>>
 
 OnReq(m) ==
   /\ m.k = "req"
@@ -238,25 +246,46 @@ OnReq(m) ==
                     THEN FwdChoices(C, ReqElig(Nbrs(n), m), m.alpha) ELSE {{}}) :
           /\ Apply(n, ReqStep(C, st[n], n, Nbrs(n), m, fwd), BagRemove(net, m))
           /\ last' = [op |-> "deliver", m |-> MsgRec(m), fwd |-> fwd]
-  /\ UNCHANGED <<links, nfinds, ninjects, nexp, nloss>>
+  /\ UNCHANGED <<links, everlinks, parked, nfinds, ninjects, nexp, nloss, nlink>>
 
+\* a response; if it ends a search that a parked relay waits for, the relay goes on in the same step
 OnResp(m) ==
   /\ m.k = "resp"
-  /\ Apply(m.to, RespStep(C, st[m.to], m.to, m), BagRemove(net, m))
+  /\ LET n == m.to
+         r == RespStep(C, st[n], n, m)
+         woken == {p \in parked[n] : p.dest \in r.done}
+     IN /\ parked' = [parked EXCEPT ![n] = @ \ woken]
+        /\ IF woken = {} THEN Apply(n, r, BagRemove(net, m))
+           ELSE LET p == CHOOSE x \in woken : TRUE      \* at most one relay is parked per node
+                    ch == ResumeChoices(r.S, n, Nbrs(n), p)
+                IN \/ /\ ch = {}
+                      /\ Apply(n, r, BagRemove(net, m))
+                   \/ \E nx \in ch :
+                         Apply(n, [r EXCEPT !.out = @ \cup RelayStep(r.S, n, p, nx).out], BagRemove(net, m))
   /\ last' = [op |-> "deliver", m |-> MsgRec(m), fwd |-> {}]
-  /\ UNCHANGED <<links, nfinds, ninjects, nexp, nloss>>
+  /\ UNCHANGED <<links, everlinks, nfinds, ninjects, nexp, nloss, nlink>>
 
 OnRelay(m) ==
   /\ m.k = "relay"
   /\ LET n == m.to
          ch == RelayChoices(st[n], n, Nbrs(n), m)
-     IN \/ /\ ch = {}
+         canSearch == /\ n # m.dest /\ nfinds < MaxFinds /\ parked[n] = {}
+                      /\ m.dest \notin DOMAIN st[n].finding
+     IN \/ /\ ch = {} /\ ~canSearch             \* delivered to the target, or the stream fails
            /\ Apply(n, Nothing(st[n]), BagRemove(net, m))
            /\ last' = [op |-> "deliver", m |-> MsgRec(m), fwd |-> {}]
+           /\ UNCHANGED <<parked, nfinds>>
+        \/ /\ ch = {} /\ canSearch              \* GetNextHopRandomOrFind: no stored hop off the path, search
+           /\ \E fwd \in FwdChoices(C, FindElig(Nbrs(n), n, m.dest), Alpha) :
+                 /\ Apply(n, FindStep(C, st[n], n, m.dest, fwd), BagRemove(net, m))
+                 /\ parked' = [parked EXCEPT ![n] = IF fwd = {} THEN @ ELSE @ \cup {m}]
+                 /\ last' = [op |-> "deliver", m |-> MsgRec(m), fwd |-> fwd]
+           /\ nfinds' = nfinds + 1
         \/ \E nx \in ch :
               /\ Apply(n, RelayStep(st[n], n, m, nx), BagRemove(net, m))
               /\ last' = [op |-> "deliver", m |-> MsgRec(m), fwd |-> {}]
-  /\ UNCHANGED <<links, nfinds, ninjects, nexp, nloss>>
+              /\ UNCHANGED <<parked, nfinds>>
+  /\ UNCHANGED <<links, everlinks, ninjects, nexp, nloss, nlink>>
 
 Deliver == \E m \in DOMAIN net : OnReq(m) \/ OnResp(m) \/ OnRelay(m)
 
@@ -266,7 +295,7 @@ Lose ==
         /\ net' = BagRemove(net, m)
         /\ last' = [op |-> "lose", m |-> MsgRec(m)]
   /\ nloss' = nloss + 1
-  /\ UNCHANGED <<links, st, nsent, nfinds, ninjects, nexp>>
+  /\ UNCHANGED <<links, everlinks, st, parked, nsent, nfinds, ninjects, nexp, nlink>>
 
 PendingExpire(n) ==
   /\ nexp < MaxExpires
@@ -274,15 +303,17 @@ PendingExpire(n) ==
   /\ st' = [st EXCEPT ![n] = ExpireStep(C, @)]
   /\ nexp' = nexp + 1
   /\ last' = [op |-> "expire", n |-> n]
-  /\ UNCHANGED <<links, net, nsent, nfinds, ninjects, nloss>>
+  /\ UNCHANGED <<links, everlinks, parked, net, nsent, nfinds, ninjects, nloss, nlink>>
 
+\* FindRoute gives up; a relay waiting for it fails with it
 FindCancel(n, t) ==
   /\ nexp < MaxExpires
   /\ t \in DOMAIN st[n].finding
   /\ st' = [st EXCEPT ![n] = CancelStep(@, t)]
+  /\ parked' = [parked EXCEPT ![n] = {p \in @ : p.dest # t}]
   /\ nexp' = nexp + 1
   /\ last' = [op |-> "cancel", n |-> n, t |-> t]
-  /\ UNCHANGED <<links, net, nsent, nfinds, ninjects, nloss>>
+  /\ UNCHANGED <<links, everlinks, net, nsent, nfinds, ninjects, nloss, nlink>>
 
 \* a relayed stream from an honest neighbour f that itself got it from x (or started it)
 Inject(n, f, d) ==
@@ -295,13 +326,31 @@ Inject(n, f, d) ==
            /\ last' = [op |-> "inject", m |-> MsgRec(m)]
   /\ ninjects' = ninjects + 1
   /\ nsent' = nsent + 1
-  /\ UNCHANGED <<links, st, nfinds, nexp, nloss>>
+  /\ UNCHANGED <<links, everlinks, st, parked, nfinds, nexp, nloss, nlink>>
+
+\* the neighbour relation changes while nothing is in flight: a link goes down, or comes up (the two
+\* nodes then know each other's address)
+Quiet0 == net = <<>> /\ \A n \in Node : parked[n] = {}
+LinkDown(a, b) ==
+  /\ nlink < MaxLinkChanges /\ Quiet0 /\ a # b /\ {a, b} \in links
+  /\ links' = links \ {{a, b}}
+  /\ nlink' = nlink + 1
+  /\ last' = [op |-> "linkdown", a |-> a, b |-> b]
+  /\ UNCHANGED <<everlinks, st, parked, net, nsent, nfinds, ninjects, nexp, nloss>>
+LinkUp(a, b) ==
+  /\ nlink < MaxLinkChanges /\ Quiet0 /\ a # b /\ {a, b} \notin links
+  /\ links' = links \cup {{a, b}} /\ everlinks' = everlinks \cup {{a, b}}
+  /\ st' = [st EXCEPT ![a].book = @ \cup {b}, ![b].book = @ \cup {a}]
+  /\ nlink' = nlink + 1
+  /\ last' = [op |-> "linkup", a |-> a, b |-> b]
+  /\ UNCHANGED <<parked, net, nsent, nfinds, ninjects, nexp, nloss>>
 
 Next == \/ \E n, t \in Node : Find(n, t) \/ FindCancel(n, t)
         \/ Deliver
         \/ Lose
         \/ \E n \in Node : PendingExpire(n)
         \/ \E n, f, d \in Node : Inject(n, f, d)
+        \/ \E a, b \in Node : a < b /\ (LinkDown(a, b) \/ LinkUp(a, b))
 
 Spec == Init /\ [][Next]_vars
 FairSpec == Spec /\ WF_vars(Deliver)
@@ -309,15 +358,15 @@ FairSpec == Spec /\ WF_vars(Deliver)
 (***************************************************************************)
 (* C28                                                                     *)
 (***************************************************************************)
-\* every recorded path (and therefore every path FindRoute/GetRoute returns)
-RecordedPathsOK == \A n \in Node : \A p \in st[n].tb.paths : PathOK(links, MaxTTL, n, p)
+\* every recorded path (and therefore every path FindRoute/GetRoute returns) follows links that existed
+RecordedPathsOK == \A n \in Node : \A p \in st[n].tb.paths : PathOK(everlinks, MaxTTL, n, p)
 
 \* paths in flight: distinct, along links, at most one hop over the limit (the receiver discards those)
 InFlightPathsOK ==
   \A m \in DOMAIN net : \A i \in 1..Len(m.paths) :
      LET p == m.paths[i]
      IN /\ Distinct(p)
-        /\ \A j \in 1..(Len(p) - 1) : {p[j], p[j+1]} \in links
+        /\ \A j \in 1..(Len(p) - 1) : {p[j], p[j+1]} \in everlinks
         /\ m.k # "relay" => (p[Len(p)] = m.from /\ Len(p) <= MaxTTL + 1)
 
 RelaySkipOK == \A m \in DOMAIN net : RelayMsgOK(m)
